@@ -24,6 +24,7 @@
   w sys dvect|dmag2 s SEL SEL | w disp <ref> s0 s1
 -/
 import Atomman.C02
+import Atomman.C01
 open Atomman Atomman.C02
 
 namespace C02Drv
@@ -235,12 +236,23 @@ def showState (w : W) (s : Nat) : String :=
     | some b => " ".intercalate [showBool st.px, showBool st.py, showBool st.pz, "|", showRats b.vects.toList, "|",
         showRats b.origin.toList, "|", showV3s st.pos]
 
+/-- what the `Box.vects` setter stores: the clean-up of entries below `1e-9` (the double) of the largest one — C01's model
+    of that statement (`C01.cleanVects`, tied to the source by C01's `gen_cleanup_eq_model`).  Every cell-defining operation
+    of the `World` (`Box(...)`, `B.vects = …`, `B.set(...)`, `S.box_set(...)`) goes through that setter. -/
+def stored (v : M3 Rat) : M3 Rat := C01.cleanVects ((C01.atolNum : Rat) / (C01.atolDen : Rat)) v
+
+def handleClean (l : List String) : Option String := do
+  let (v, l) ← m3 l
+  if l ≠ [] then none else
+  let c := stored v
+  pure (showRats (c.r0.toList ++ c.r1.toList ++ c.r2.toList))
+
 def parseOp (cmd : String) (l : List String) : Option (Op Rat) := do
   match cmd with
   | "newbox" =>
     let (v, l) ← m3 l
     let (o, l) ← v3 l
-    if l ≠ [] then none else pure (.newBox v o)
+    if l ≠ [] then none else pure (.newBox (stored v) o)
   | "newsys" =>
     let (b, l) ← nat l
     let ((px, py, pz), l) ← pbc l
@@ -250,7 +262,7 @@ def parseOp (cmd : String) (l : List String) : Option (Op Rat) := do
   | "boxvects" =>
     let (b, l) ← nat l
     let (v, l) ← m3 l
-    if l ≠ [] then none else pure (.boxVects b v)
+    if l ≠ [] then none else pure (.boxVects b (stored v))
   | "boxorigin" =>
     let (b, l) ← nat l
     let (o, l) ← v3 l
@@ -259,13 +271,13 @@ def parseOp (cmd : String) (l : List String) : Option (Op Rat) := do
     let (b, l) ← nat l
     let (v, l) ← m3 l
     let (o, l) ← v3 l
-    if l ≠ [] then none else pure (.boxSet b v o)
+    if l ≠ [] then none else pure (.boxSet b (stored v) o)
   | "sysboxset" =>
     let (s, l) ← nat l
     let (v, l) ← m3 l
     let (o, l) ← v3 l
     let (sc, l) ← bool l
-    if l ≠ [] then none else pure (.sysBoxSet s v o sc)
+    if l ≠ [] then none else pure (.sysBoxSet s (stored v) o sc)
   | "pbcset" =>
     let (s, l) ← nat l
     let ((px, py, pz), l) ← pbc l
@@ -360,6 +372,7 @@ def handleC02 (toks : List String) : String :=
   | "slice" :: r => (C02Drv.handleSlice r).getD (err "format")
   | "api" :: r => (C02Drv.handleApi r).getD (err "format")
   | "pbcarg" :: r => (C02Drv.handlePbcArg r).getD (err "format")
+  | "clean" :: r => (C02Drv.handleClean r).getD (err "format")
   | _ => err "op"
 
 def stepC02 (w : C02Drv.W) (toks : List String) : C02Drv.W × String :=
